@@ -9,6 +9,11 @@ import heapq
 import importlib
 
 
+class StepLimit(Exception):
+    """The code under test polled the network more often than any terminating
+    run could (the harness owns the clock, so this is non-termination)."""
+
+
 class VirtualClock(object):
     def __init__(self, start=1000000.0):
         self.now = start
@@ -19,13 +24,10 @@ class VirtualClock(object):
 
     def sleep(self, dt):
         self.sleeps.append(dt)
+        if len(self.sleeps) > 200000:
+            raise StepLimit("more than 200000 sleep() calls")
         if dt > 0:
             self.now += dt
-
-
-class StepLimit(Exception):
-    """The code under test polled the network more often than any terminating
-    run could (the harness owns the clock, so this is non-termination)."""
 
 
 class FakeSocket(object):
@@ -169,7 +171,7 @@ class Network(object):
         self.delivered = []        # (time, socket ident, bytes)
         self.order = 0
         self.select_calls = 0
-        self.select_limit = None
+        self.select_limit = 2000000
         self.epsilon = 1e-6
         self.latency = 0.0
 
